@@ -13,7 +13,7 @@
     change the tree the evaluator sees. That the edited sources are accepted by the front end,
     and that the server survives every offered rename (F4, fixed), is carried by monitor O18
     on the real binary. *)
-From Oal Require Import Handlers HandlersProofs Resolve RewriteProofs.
+From Oal Require Import Handlers HandlersProofs Resolve RewriteProofs Folder FolderProofs.
 From Oal Require Eval EvalProofs KeyMap.
 
 Theorem C18_rename_use_edits_disjoint : forall us d, ordered us ->
@@ -31,6 +31,42 @@ Theorem C18_renaming_keeps_binding_partial : forall f, (forall a b, f a = f b ->
   forall t en, lex (ren_env f en) (ren f t) = lex en t.
 Proof. exact alpha_resolution. Qed.
 Print Assumptions C18_renaming_keeps_binding_partial.
+
+(** folder level (Model/Folder.v, run against the real server on every check): the edits of a
+    rename are the identifier of the definition, in whichever module it lives, and exactly the
+    references; the reference edits of a module never overlap; a built-in is never renamed;
+    on the qualifier of an import the edits are that identifier and the first identifier of
+    the variables of the module that carry it *)
+Theorem C18_folder_rename_edits : forall f m idx d i n,
+  f_find_definition f m idx = Some d -> internal f d = false -> locate f d = Some (i, n) ->
+  f_rename f m idx = (i, n_istart n, n_iend n) :: f_refs f d.
+Proof. exact f_rename_external. Qed.
+Print Assumptions C18_folder_rename_edits.
+
+Theorem C18_folder_reference_edits_exact : forall f d i s e,
+  In (i, s, e) (f_refs f d) <->
+  exists fm u, nth_error (f_mods f) i = Some fm /\ In u (uses_of fm) /\ u_def u = Some d /\ s = u_istart u /\ e = u_iend u.
+Proof. exact f_refs_exact. Qed.
+Print Assumptions C18_folder_reference_edits_exact.
+
+Theorem C18_folder_reference_edits_disjoint : forall f d i s1 e1 s2 e2,
+  folder_ok f -> In (i, s1, e1) (f_refs f d) -> In (i, s2, e2) (f_refs f d) -> (s1, e1) <> (s2, e2) ->
+  (e1 <= s2 \/ e2 <= s1)%N.
+Proof. exact f_refs_disjoint. Qed.
+Print Assumptions C18_folder_reference_edits_disjoint.
+
+Theorem C18_folder_builtin_not_renamed : forall f m idx d,
+  f_find_definition f m idx = Some d -> internal f d = true -> f_rename f m idx = [].
+Proof. exact f_rename_builtin. Qed.
+Print Assumptions C18_folder_builtin_not_renamed.
+
+Theorem C18_folder_rename_qualifier : forall f m idx q,
+  f_find_definition f m idx = None -> qual_at (fm_quals (mod_at f m)) idx = Some q ->
+  forall i s e, In (i, s, e) (f_rename f m idx) <->
+    (i = m /\ s = q_start q /\ e = q_end q) \/
+    (i = m /\ exists v x, In v (fm_uses (mod_at f m)) /\ v_q v = Some (s, e, x) /\ x = q_name q).
+Proof. exact f_rename_qualifier. Qed.
+Print Assumptions C18_folder_rename_qualifier.
 
 (** evaluation: renaming binders, renaming @references *)
 Theorem C18_binder_rename_keeps_document : forall rho : N -> N, (forall x y, rho x = rho y -> x = y) ->
